@@ -40,6 +40,20 @@ def rewriting_passes():
     return out
 
 
+def eliminated_variant_names():
+    p = os.path.join(HERE, "tables", "eliminated.toml")
+    with open(p, "rb") as f:
+        d = tomllib.load(f)
+    return {v for e in d.get("eliminated", []) for v in e["variants"]}
+
+
+def late_producer_modules():
+    p = os.path.join(HERE, "tables", "eliminated.toml")
+    with open(p, "rb") as f:
+        d = tomllib.load(f)
+    return [e["module"] for e in d.get("late_producer", [])]
+
+
 def arm_variants_of_block(cov, block):
     """variants of the primary switch of `cov` whose arm region contains `block` (None if the block is reachable
     from every arm, i.e. it is common code)"""
